@@ -223,7 +223,7 @@ PROPS["C16"] = {
 PROC_TB = ["real roughenough-server binary built from /repo's working tree, run as a process on loopback with free ports; observables: /proc/<pid>/task/*/comm, UDP replies (distinct per-worker certificates), TCP health probes, exit status, captured stdout+stderr",
            "Linux kernel behaviour (SO_REUSEPORT distribution of datagrams and connections, signal delivery, scheduling) is exercised, not modelled", TB_CRYPTO]
 PROPS["C15"] = {
-    "claimed": False, "module": "Rough.Props.C15", "need_bins": True,
+    "claimed": True, "module": "Rough.Props.C15", "need_bins": True,
     "theorems": ["Rough.Props.C15.C15_all_start", "Rough.Props.C15.C15_unfixed_witness", "Rough.Props.C15.C15_valid_preconditions"],
     "streams": [{"args": ["startup"], "shards_quick": 6, "shards_thorough": 16, "timeout": 1500}],
     "ops": ["startup"], "trivial": r"^$", "min_nontrivial": 8,
@@ -235,7 +235,7 @@ PROPS["C15"] = {
     "technique": "Lean 4 proof (start-up resource model, all orders) + process-level correspondence on the configuration grid",
 }
 PROPS["C18"] = {
-    "claimed": False, "module": "Rough.Props.C18", "need_bins": True,
+    "claimed": True, "module": "Rough.Props.C18", "need_bins": True,
     "theorems": ["Rough.Props.C18.C18_workers"],
     "streams": [{"args": ["workers"], "shards_quick": 6, "shards_thorough": 16, "timeout": 1500}],
     "ops": ["mw"], "trivial": r"^$", "min_nontrivial": 4,
@@ -247,7 +247,7 @@ PROPS["C18"] = {
     "technique": "Lean 4 proof (per-worker refinement, quantified over assignments) + concurrent process-level validation",
 }
 PROPS["C19"] = {
-    "claimed": False, "module": "Rough.Props.C19", "need_bins": True,
+    "claimed": True, "module": "Rough.Props.C19", "need_bins": True,
     "theorems": ["Rough.Props.C19.C19_call_bounded", "Rough.Props.C19.C19_worker_exits", "Rough.Props.C19.C19_reporter_exits",
                  "Rough.Props.C19.C19_flood_starves_unfixed", "Rough.Props.C19.C19_replies_complete"],
     "streams": [{"args": ["shutdown"], "shards_quick": 6, "shards_thorough": 16, "timeout": 1500}],
